@@ -54,7 +54,13 @@ func tilePoint(s *core.Source, cx, cy int) orb.Point { return tilePointR(s, cx, 
 func tilePoints(s *core.Source, min, max int) []orb.Point {
 	cx, cy := tileCenter(s)
 	var ps []orb.Point
-	s.Repeat(min, 3, max, "tp", func(int) { ps = append(ps, tilePoint(s, cx, cy)) })
+	s.Repeat(min, 3, max, "tp", func(int) {
+		if len(ps) > 0 && s.Chance(1, 8, "dupvertex") {
+			ps = append(ps, ps[len(ps)-1]) // the same vertex twice in a row (a zero delta)
+			return
+		}
+		ps = append(ps, tilePoint(s, cx, cy))
+	})
 	return ps
 }
 
@@ -248,6 +254,9 @@ func FeatureID(s *core.Source) interface{} {
 	case 0:
 		return nil
 	case 1:
+		if s.Chance(1, 4, "idzero") {
+			return 0 // a real id, not "absent"
+		}
 		return s.Range(0, 100, "id")
 	case 2:
 		return int64(s.Bits("id64") >> 1)
@@ -287,6 +296,18 @@ func Layers(s *core.Source, o LayerOpts) mvt.Layers {
 			f := geojson.NewFeature(TileGeometry(s, s.Pick(w, "gkind")))
 			f.ID = FeatureID(s)
 			f.Properties = Props(s)
+			if n := len(l.Features); n > 0 {
+				// coincidences uniform generation rarely makes: the same property map object,
+				// the same geometry value, or the same id as the previous feature
+				switch s.Pick([]int{12, 1, 1, 1}, "same") {
+				case 1:
+					f.Properties = l.Features[n-1].Properties
+				case 2:
+					f.Geometry = l.Features[n-1].Geometry
+				case 3:
+					f.ID = l.Features[n-1].ID
+				}
+			}
 			l.Features = append(l.Features, f)
 		})
 		if o.Repetitive && len(l.Features) > 0 && s.Chance(1, 60, "manykeys") {
